@@ -58,6 +58,7 @@ type BitcoinNode struct {
 	blockRequest       *bitcoin.Hash32
 	blockHandler       HandleBlock
 	blockReader        io.ReadCloser
+	blockHandlerCalled bool // the handler of the requested block has been called
 	blockOnStop        OnStop
 	lastRequestedBlock *bitcoin.Hash32
 
@@ -226,6 +227,7 @@ func (n *BitcoinNode) RequestBlock(ctx context.Context, hash bitcoin.Hash32, han
 	n.handlers[wire.CmdBlock] = n.handleBlock
 	n.blockHandler = handler
 	n.blockReader = nil
+	n.blockHandlerCalled = false
 	n.lastRequestedBlock = &hash
 	n.Unlock()
 
@@ -265,13 +267,16 @@ func (n *BitcoinNode) CancelBlockRequest(ctx context.Context, hash bitcoin.Hash3
 	}
 
 	if n.blockReader != nil {
-		// Stop in progress handling of block
+		// Stop in progress handling of block. Only when the handler has been called will it report
+		// the end of the download; before that the block is dropped without calling it.
+		handlerCalled := n.blockHandlerCalled
 		n.blockReader.Close()
 		n.blockReader = nil
 		n.blockOnStop = nil
 		n.blockHandler = nil
+		n.blockHandlerCalled = false
 		logger.Info(ctx, "Cancelled in progress block")
-		return true
+		return handlerCalled
 	}
 
 	// Stop handling a block before it happens
